@@ -115,6 +115,10 @@ fn run_seq(tpl: &Path, db: &Path, seq: &[usize], out: &mut Out) {
             });
             let cid = match r {
                 Ok(c) => c,
+                Err(OperationError::InvalidReplChangeId) => {
+                    out.viols.push((format!("not_increasing:{}", NAMES[*op]), format!("step {i} ({}) was refused because its change identifier was not greater than one already committed (InvalidReplChangeId)", NAMES[*op]), here()));
+                    return;
+                }
                 Err(e) => {
                     out.errs.push(format!("{:?}: write failed {e:?}", here()));
                     return;
@@ -151,6 +155,12 @@ fn run_seq(tpl: &Path, db: &Path, seq: &[usize], out: &mut Out) {
             drop(qs);
             qs = match new_qs(Some(db), 2, DOMAIN_TGT_LEVEL, at, &rt) {
                 Ok(q) => q,
+                // the replication metadata refuses a change identifier that is not greater than
+                // the ones it holds: the server tried to go backwards
+                Err(OperationError::InvalidReplChangeId) => {
+                    out.viols.push((format!("not_increasing:{}", NAMES[*op]), format!("step {i} ({}): the server could not start because the first change identifier it chose was not greater than one it had committed (InvalidReplChangeId)", NAMES[*op]), here()));
+                    return;
+                }
                 Err(e) => {
                     out.errs.push(format!("{:?}: reopen: {e:?}", here()));
                     return;
@@ -191,7 +201,7 @@ pub fn run(args: &[String]) -> ! {
             kv_engine::ctx::machinery_exit(&format!("C07 template: {e:?}"));
         }
     }
-    let depth = ctx.opt_u64("depth").unwrap_or(ctx.pick(4, 5)) as usize;
+    let depth = ctx.opt_u64("depth").unwrap_or(ctx.pick(3, 4)) as usize;
     let mut seqs: Vec<Vec<usize>> = Vec::new();
     if let Some(r) = ctx.replay.clone() {
         seqs.push(r["case"]["ops"].as_array().map(|a| a.iter().filter_map(|x| x.as_u64()).map(|x| x as usize).collect()).unwrap_or_default());
